@@ -592,7 +592,7 @@ func RunCase(c *Case, st *Stats) string {
 // case as a pending replay first. Normal cases cost micro- to milliseconds, so the limit is 4-6
 // orders of magnitude above them; the driver confirms by replaying the case alone.
 
-var hangLimit = 20 * time.Second
+var hangLimit = 30 * time.Second
 var currentCase atomic.Pointer[Case]
 var currentStart atomic.Int64
 var currentCPU atomic.Int64 // process CPU time (ns) when the case started
